@@ -165,15 +165,23 @@ def transforms(ctx, repo):
     tm = repo.mod("cffLib/transforms.py")
     d = tm.func("desubroutinize")
     txt = norm(d.node)
-    ok = "for c in cs.values()" in txt and "desubroutinizeCharString(c)" in txt
+    # name-insensitive: a loop over <charstrings>.values() whose body hands the loop variable to desubroutinizeCharString
+    ok = False
+    for lp in [n for n in ast.walk(d.node) if isinstance(n, ast.For) and isinstance(n.iter, ast.Call) and isinstance(n.iter.func, ast.Attribute) and n.iter.func.attr == "values" and isinstance(n.target, ast.Name)]:
+        if any(call_name(c) == "desubroutinizeCharString" and c.args and norm(c.args[0]) == lp.target.id for c in calls_in(lp)):
+            ok = True
     ctx.ob("CFF-xf", d.where, "every charstring is desubroutinized", ok)
-    loops = [norm(n.iter) for n in ast.walk(d.node) if isinstance(n, ast.For)]
-    ok = "font.FDArray" in loops and "cff.fontNames" in loops and txt.count("del pd.Subrs") == 2 and txt.count("del pd.rawDict['Subrs']") == 2
+    loops = [n.iter.attr if isinstance(n.iter, ast.Attribute) else norm(n.iter) for n in ast.walk(d.node) if isinstance(n, ast.For)]
+    dels = [t for n in ast.walk(d.node) if isinstance(n, ast.Delete) for t in n.targets]
+    n_attr = sum(1 for t in dels if isinstance(t, ast.Attribute) and t.attr == "Subrs")
+    n_raw = sum(1 for t in dels if isinstance(t, ast.Subscript) and isinstance(t.value, ast.Attribute) and t.value.attr == "rawDict" and norm(t.slice) == "'Subrs'")
+    ok = "FDArray" in loops and "fontNames" in loops and n_attr == 2 and n_raw == 2
     ctx.ob("CFF-xf", d.where, "local Subrs removed for every FDArray entry and for the top-level Private", ok, "" if ok else "a Private dict keeps subrs that no charstring references any more (or the other way round)")
-    ctx.ob("CFF-xf", d.where, "GlobalSubrs cleared", "cff.GlobalSubrs.clear()" in txt)
+    ok = any(isinstance(c.func, ast.Attribute) and c.func.attr == "clear" and isinstance(c.func.value, ast.Attribute) and c.func.value.attr == "GlobalSubrs" for c in calls_in(d.node))
+    ctx.ob("CFF-xf", d.where, "GlobalSubrs cleared", ok)
     dc = tm.func("desubroutinizeCharString")
-    txt2 = norm(dc.node)
-    ok = "cs.program = cs._desubroutinized" in txt2 and "decompiler.execute(cs)" in txt2
+    p0 = dc.node.args.args[0].arg
+    ok = any(isinstance(n, ast.Assign) and norm(n.targets[0]) == f"{p0}.program" and norm(n.value) == f"{p0}._desubroutinized" for n in ast.walk(dc.node)) and any(isinstance(c.func, ast.Attribute) and c.func.attr == "execute" and c.args and norm(c.args[0]) == p0 for c in calls_in(dc.node))
     ctx.ob("CFF-xf", dc.where, "program replaced by the flattened program", ok)
     r = tm.func("remove_hints")
     g = CFG(r.node)
